@@ -52,6 +52,19 @@ Fixpoint starts_with (p l : list Z) : bool :=
   end.
 Definition ends_with (p l : list Z) : bool := starts_with (rev p) (rev l).
 
+(* take/drop with a Z count, structural on the list: the count may come from file data and be
+   huge, so it is never converted to nat (Lemmas.v: takez n l = take n l, dropz n l = drop n l) *)
+Fixpoint takez {A} (n : Z) (l : list A) : list A :=
+  match l with
+  | [] => []
+  | x :: r => if n <=? 0 then [] else x :: takez (n - 1) r
+  end.
+Fixpoint dropz {A} (n : Z) (l : list A) : list A :=
+  match l with
+  | [] => []
+  | x :: r => if n <=? 0 then l else dropz (n - 1) r
+  end.
+
 Inductive err :=
   | EMagic | ENoEnd | EKey | EDatatype | EFile | ESeek          (* TCK header *)
   | EBuf | EShape | EDelim | EEof                               (* TCK data *)
@@ -142,15 +155,15 @@ Definition fo_seek_cur (o : Z) (f : fobj) : fobj := mkF (fpos f + o) (fbytes f).
 Definition fo_seek_end (o : Z) (f : fobj) : fobj := mkF (zlen (fbytes f) + o) (fbytes f).
 (* read(n); n < 0 reads to the end; a position past the end reads nothing *)
 Definition fo_read (n : Z) (f : fobj) : list Z * fobj :=
-  let avail := drop (fpos f) (fbytes f) in
-  let d := if n <? 0 then avail else take n avail in
+  let avail := dropz (fpos f) (fbytes f) in
+  let d := if n <? 0 then avail else takez n avail in
   (d, mkF (fpos f + zlen d) (fbytes f)).
 (* write(d) at the position; a gap past the end is zero-filled (BytesIO / POSIX files) *)
 Definition fo_write (d : list Z) (f : fobj) : fobj :=
   let b := fbytes f in
   let p := fpos f in
-  let pre := take p b ++ zeros (p - zlen b) in
-  mkF (p + zlen d) (pre ++ d ++ drop (p + zlen d) b).
+  let pre := takez p b ++ zeros (p - zlen b) in
+  mkF (p + zlen d) (pre ++ d ++ dropz (p + zlen d) b).
 
 (* TckFile.save on a file object at position 0 (beginning = 0): temporary header with the
    header dict's count, data, EOF delimiter, then the header again with the real count
@@ -266,9 +279,9 @@ Fixpoint tck_lines_loop (fuel : nat) (l : list Z) (key : option (list Z)) (d : h
 (* returns (big-endian data?, _offset_data) *)
 Definition tck_parse_header (f : list Z) : res (bool * Z) :=
   let mlen := zlen tck_magic in
-  if negb (list_eqb (take mlen f) tck_magic) then Err EMagic
+  if negb (list_eqb (takez mlen f) tck_magic) then Err EMagic
   else
-    let body := drop (mlen + 1) f in
+    let body := dropz (mlen + 1) f in
     match tck_lines_loop (S (length body)) body None [] 0 with
     | Err e => Err e
     | Ok (d, consumed) =>
@@ -341,8 +354,8 @@ Fixpoint tck_loop (fuel : nat) (be : bool) (B : Z) (f : list Z)
   match fuel with
   | O => Err EFuel
   | S fuel' =>
-    let chunk := take B f in
-    let rest := drop B f in
+    let chunk := takez B f in
+    let rest := dropz B f in
     let eof := negb (zlen chunk =? B) in
     match chunk_check chunk with
     | Some e => Err e
@@ -369,13 +382,13 @@ Definition tck_load (b : Z) (f : list Z) : res (list (list triple)) :=
   | Err e => Err e
   | Ok (be, off) =>
     if off <? 0 then Err ESeek
-    else tck_read_data be (tck_bufsize b) (drop off f)
+    else tck_read_data be (tck_bufsize b) (dropz off f)
   end.
 
 (* ------------------------------------------------------------------ TRK: header block *)
-Definition get_at (off n : Z) (blk : list Z) : list Z := take n (drop off blk).
+Definition get_at (off n : Z) (blk : list Z) : list Z := takez n (dropz off blk).
 Definition set_at (off : Z) (data blk : list Z) : list Z :=
-  take off blk ++ data ++ drop (off + zlen data) blk.
+  takez off blk ++ data ++ dropz (off + zlen data) blk.
 
 Record trk_offs := mkOffs {
   o_magic : Z; o_dims : Z; o_vsizes : Z; o_origin : Z; o_nscal : Z; o_sname : Z; o_nprop : Z;
@@ -490,7 +503,7 @@ Fixpoint name_slices_loop (fields : list (list Z)) (cpt : Z) (d : sdict) : res (
 Fixpoint chop (n : nat) (w : Z) (l : list Z) : list (list Z) :=
   match n with
   | O => []
-  | S n' => take w l :: chop n' w (drop w l)
+  | S n' => takez w l :: chop n' w (dropz w l)
   end.
 
 Definition name_slices (total : Z) (block : list Z) (generic : list Z) : res sdict :=
@@ -513,7 +526,7 @@ Record trk_user := mkUser {
 
 Definition enc_list (be : bool) (w : nat) (l : list Z) : list Z := flat_map (enc be w) l.
 Definition enc_s_list (be : bool) (w : nat) (l : list Z) : list Z := flat_map (enc_s be w) l.
-Definition pad_to (n : Z) (l : list Z) : list Z := take n l ++ zeros (n - zlen l).
+Definition pad_to (n : Z) (l : list Z) : list Z := takez n l ++ zeros (n - zlen l).
 
 (* _default_structarr('little') overridden by the user's header, voxel order b'' -> b'LPS' *)
 Definition trk_template (o : trk_offs) (u : trk_user) : list Z :=
@@ -611,50 +624,59 @@ Definition trk_parse_header (o : trk_offs) (hb : list Z) : res trk_info :=
 Fixpoint chop_all (fuel : nat) (w : Z) (l : list Z) : list (list Z) :=
   match fuel with
   | O => []
-  | S f => match l with [] => [] | _ => take w l :: chop_all f w (drop w l) end
+  | S f => match l with [] => [] | _ => takez w l :: chop_all f w (dropz w l) end
   end.
 Definition words_of (be : bool) (l : list Z) : list Z := map (dec be) (chop_all (length l) 4 l).
 Definition rows_of (be : bool) (ncols : Z) (l : list Z) : list (list Z) :=
   map (words_of be) (chop_all (length l) (4 * ncols) l).
 
-(* the `while count < nb_streamlines` loop; nb = None when the header count is 0 (np.inf) *)
+(* one turn of the `while count < nb_streamlines` loop; nb = None when the header count is 0
+   (np.inf); k = streamlines read so far *)
+Inductive step := SDone | SErr (e : err) | SRec (s : trk_stream) (consumed : Z) (rest : list Z).
+
+Definition trk_step (be : bool) (ncols nprop : Z) (nb : option Z) (k : Z) (f : list Z) : step :=
+  if match nb with Some n => n <=? k | None => false end then SDone
+  else
+    let nbs := takez 4 f in
+    if zlen nbs =? 0 then
+      match nb with Some _ => SErr ETruncated | None => SDone end
+    else if zlen nbs <? 4 then SErr EStruct
+    else
+      let npts := dec_s be nbs in
+      let f1 := dropz 4 f in
+      if npts <? 0 then SErr ENegPts
+      else
+        let psz := npts * (ncols * 4) in
+        let pb := takez psz f1 in
+        if zlen pb <? psz then SErr EBufSmall
+        else
+          let f2 := dropz psz f1 in
+          let qsz := nprop * 4 in
+          let qb := takez qsz f2 in
+          if zlen qb <? qsz then SErr EBufSmall
+          else SRec (mkStream (rows_of be ncols pb) (words_of be qb)) (4 + psz + qsz) (dropz qsz f2).
+
 Fixpoint trk_loop (fuel : nat) (be : bool) (ncols nprop : Z) (nb : option Z) (k : Z)
                   (f : list Z) (acc : list trk_stream) : res (list trk_stream) :=
   match fuel with
   | O => Err EFuel
   | S fuel' =>
-    if match nb with Some n => n <=? k | None => false end then Ok (rev acc)
-    else
-      let nbs := take 4 f in
-      if zlen nbs =? 0 then
-        match nb with Some _ => Err ETruncated | None => Ok (rev acc) end
-      else if zlen nbs <? 4 then Err EStruct
-      else
-        let npts := dec_s be nbs in
-        let f1 := drop 4 f in
-        if npts <? 0 then Err ENegPts
-        else
-          let psz := npts * (ncols * 4) in
-          let pb := take psz f1 in
-          if zlen pb <? psz then Err EBufSmall
-          else
-            let f2 := drop psz f1 in
-            let qsz := nprop * 4 in
-            let qb := take qsz f2 in
-            if zlen qb <? qsz then Err EBufSmall
-            else trk_loop fuel' be ncols nprop nb (k + 1) (drop qsz f2)
-                          (mkStream (rows_of be ncols pb) (words_of be qb) :: acc)
+    match trk_step be ncols nprop nb k f with
+    | SDone => Ok (rev acc)
+    | SErr e => Err e
+    | SRec s _ rest => trk_loop fuel' be ncols nprop nb (k + 1) rest (s :: acc)
+    end
   end.
 
 (* TrkFile.load + reading everything, from a file object positioned at p *)
 Definition trk_load (o : trk_offs) (p : Z) (f : list Z) : res (trk_info * list trk_stream) :=
-  let got := take trk_header_size (drop p f) in
+  let got := takez trk_header_size (dropz p f) in
   let hb := got ++ zeros (trk_header_size - zlen got) in
   match trk_parse_header o hb with
   | Err e => Err e
   | Ok info =>
     let offset_data := p + zlen got in
-    let data := drop offset_data f in
+    let data := dropz offset_data f in
     if (i_nscal info <? 0) || (i_nprop info <? 0) then Err ENegPts
     else
     match trk_loop (S (length data)) (i_be info) (3 + i_nscal info) (i_nprop info)
@@ -689,6 +711,40 @@ Definition tck_read_fo (b : Z) (hdr : bool * Z) (f : fobj) : res (list (list tri
   | Ok sl => Ok (sl, fo_seek_set start f2)
   end.
 
+(* LazyTractogram.from_data_func calls next(data_func()) once and drops the generator: _read
+   runs up to its first `yield` and never reaches its final seek, unless it finishes without
+   yielding (no streamline).  Some c: suspended after consuming c bytes of the data. *)
+Fixpoint tck_peek_loop (fuel : nat) (be : bool) (B : Z) (consumed : Z) (f : list Z)
+                       (cur : list triple) : res (option Z) :=
+  match fuel with
+  | O => Err EFuel
+  | S fuel' =>
+    let chunk := takez B f in
+    let rest := dropz B f in
+    let eof := negb (zlen chunk =? B) in
+    match chunk_check chunk with
+    | Some e => Err e
+    | None =>
+      let '(out', cur') := scan (triples_of be chunk) [] cur in
+      match out' with
+      | _ :: _ => Ok (Some (consumed + zlen chunk))
+      | [] => if eof then match tck_finish [] cur' with Ok _ => Ok None | Err e => Err e end
+              else tck_peek_loop fuel' be B (consumed + zlen chunk) rest cur'
+      end
+    end
+  end.
+
+Definition tck_peek_fo (b : Z) (hdr : bool * Z) (f : fobj) : res fobj :=
+  let start := fo_tell f in
+  if snd hdr <? 0 then Err ESeek else
+  let f1 := fo_seek_set (snd hdr) f in
+  let d := dropz (fpos f1) (fbytes f1) in
+  match tck_peek_loop (S (length d)) (fst hdr) (tck_bufsize b) 0 d [] with
+  | Err e => Err e
+  | Ok (Some c) => Ok (mkF (fpos f1 + c) (fbytes f))
+  | Ok None => Ok (fo_seek_set start (snd (fo_read (-1) f1)))
+  end.
+
 Fixpoint iterate_fo {A} (n : nat) (step : fobj -> res (A * fobj)) (f : fobj) (acc : list A)
   : res (list A * fobj) :=
   match n with
@@ -699,13 +755,19 @@ Fixpoint iterate_fo {A} (n : nat) (step : fobj -> res (A * fobj)) (f : fobj) (ac
             end
   end.
 
-(* load (eager: one pass inside load; lazy: no pass) followed by `iters` complete iterations
-   over tractogram.streamlines when lazy *)
+(* load (eager: one complete pass inside load; lazy: the peek of from_data_func) followed by
+   `iters` complete iterations over tractogram.streamlines when lazy *)
 Definition tck_session (b : Z) (lazy : bool) (iters : nat) (f : fobj)
   : res (list (list (list triple)) * fobj) :=
   match tck_header_fo f with
   | Err e => Err e
-  | Ok (hdr, f1) => iterate_fo (if lazy then iters else 1%nat) (tck_read_fo b hdr) f1 []
+  | Ok (hdr, f1) =>
+    if lazy then
+      match tck_peek_fo b hdr f1 with
+      | Err e => Err e
+      | Ok f2 => iterate_fo iters (tck_read_fo b hdr) f2 []
+      end
+    else iterate_fo 1%nat (tck_read_fo b hdr) f1 []
   end.
 
 (* TrkFile._read_header: tell; readinto(1000); tell -> _offset_data; seek(start, SET) *)
@@ -736,11 +798,28 @@ Definition trk_read_fo (hdr : trk_info * Z) (f : fobj) : res (list trk_stream * 
   | Ok sl => Ok (sl, fo_seek_set start f2)
   end.
 
+Definition trk_peek_fo (hdr : trk_info * Z) (f : fobj) : res fobj :=
+  let info := fst hdr in
+  let start := fo_tell f in
+  let f1 := fo_seek_set (snd hdr) f in
+  let d := dropz (fpos f1) (fbytes f1) in
+  if (i_nscal info <? 0) || (i_nprop info <? 0) then Err ENegPts else
+  match trk_step (i_be info) (3 + i_nscal info) (i_nprop info)
+          (if i_count info =? 0 then None else Some (i_count info)) 0 d with
+  | SErr e => Err e
+  | SRec _ c _ => Ok (mkF (fpos f1 + c) (fbytes f))
+  | SDone => Ok (fo_seek_set start f1)
+  end.
+
 Definition trk_session (o : trk_offs) (lazy : bool) (iters : nat) (f : fobj)
   : res (list (list trk_stream) * fobj) :=
   match trk_header_fo o f with
   | Err e => Err e
   | Ok (hdr, f1) =>
-    if lazy then iterate_fo iters (trk_read_fo hdr) f1 []
+    if lazy then
+      match trk_peek_fo hdr f1 with
+      | Err e => Err e
+      | Ok f2 => iterate_fo iters (trk_read_fo hdr) f2 []
+      end
     else iterate_fo 1 (trk_read_fo hdr) (snd (trk_size_fo f1)) []
   end.
